@@ -55,33 +55,87 @@ pub open spec fn fill_via_next<R: RngView>(v: R::V, n: nat) -> (Seq<u8>, R::V)
     } else { (Seq::empty(), v) }
 }
 
-pub trait SeedableRng: RngView {
-    type Seed;
-    spec fn seed_bytes(s: Self::Seed) -> Seq<u8>;
+// spec-only: what a seed means for this generator
+pub trait SeedView: RngView {
     spec fn seed_len() -> nat;
     spec fn from_seed_v(b: Seq<u8>) -> Self::V;
     spec fn seed_from_u64_v(x: u64) -> Self::V;
+}
+pub trait SeedableRng: SeedView {
+    type Seed;
+    spec fn seed_bytes(s: Self::Seed) -> Seq<u8>;
     fn from_seed(seed: Self::Seed) -> (r: Self)
         requires Self::seed_bytes(seed).len() == Self::seed_len(),
         ensures /*@<trait.from_seed*/ r.v() == Self::from_seed_v(Self::seed_bytes(seed)) /*@>*/;
     fn seed_from_u64(x: u64) -> (r: Self)
         ensures /*@<trait.seed_from_u64*/ r.v() == Self::seed_from_u64_v(x) /*@>*/;
-    // T5 (assumed; Kani harness `from_rng_default` on the real rand_core): the provided method draws exactly
-    // one seed's worth of bytes with one fill_bytes call and passes them to from_seed.
+}
+// T5 (assumed; Kani harness `from_rng_default` on the real rand_core): SeedableRng's provided from_rng draws exactly
+// one seed's worth of bytes with one fill_bytes call and passes them to from_seed.  A generator gets this trait
+// only if its `impl SeedableRng` in /repo does not override from_rng (checked by the unit builder).
+pub trait FromRngDefault: SeedView {
     #[verifier::external_body]
     fn from_rng<R: Fill>(rng: &mut R) -> (r: Self)
         ensures r.v() == Self::from_seed_v(R::sfill(old(rng).v(), Self::seed_len()).0),
                 final(rng).v() == R::sfill(old(rng).v(), Self::seed_len()).1,
     { unimplemented!() }
 }
+// generators that override from_rng / try_from_rng: no trait-level contract, the woven contract is on the impl
+pub trait FromRng: Sized {
+    fn from_rng<R: Fill>(rng: &mut R) -> Self;
+    fn try_from_rng<R: TryFill>(rng: &mut R) -> Result<Self, R::Error>;
+}
+// fallible byte source (rand_core::TryRngCore::try_fill_bytes): deterministic in its abstract state;
+// on Err the destination contents are unspecified
+pub trait TryFill: Sized {
+    type TV;
+    type Error;
+    spec fn tv(&self) -> Self::TV;
+    spec fn stry(v: Self::TV, n: nat) -> (Result<Seq<u8>, Self::Error>, Self::TV);
+    fn try_fill_bytes(&mut self, dest: &mut [u8]) -> (r: Result<(), Self::Error>)
+        ensures final(self).tv() == Self::stry(old(self).tv(), old(dest)@.len()).1,
+                final(dest)@.len() == old(dest)@.len(),
+                match r {
+                    Ok(()) => Self::stry(old(self).tv(), old(dest)@.len()).0 == Ok::<Seq<u8>, Self::Error>(final(dest)@),
+                    Err(e) => Self::stry(old(self).tv(), old(dest)@.len()).0 == Err::<Seq<u8>, Self::Error>(e),
+                };
+}
 
 pub mod le {
 use vstd::prelude::*;
 pub open spec fn words64(b: Seq<u8>) -> Seq<u64> {
-    Seq::new((b.len() / 8) as nat, |i: int| vstd::bytes::spec_u64_from_le_bytes(b.subrange(8 * i, 8 * i + 8)))
+    Seq::new((b.len() / 8) as nat, |i: int| crate::shims::from_le64(b.subrange(8 * i, 8 * i + 8)))
 }
 pub open spec fn words32(b: Seq<u8>) -> Seq<u32> {
-    Seq::new((b.len() / 4) as nat, |i: int| vstd::bytes::spec_u32_from_le_bytes(b.subrange(4 * i, 4 * i + 4)))
+    Seq::new((b.len() / 4) as nat, |i: int| crate::shims::from_le32(b.subrange(4 * i, 4 * i + 4)))
+}
+pub proof fn lemma_words32_zero(b: Seq<u8>) requires b.len() % 4 == 0
+    ensures crate::shims::all_zero(b) == (forall |i: int| 0 <= i < words32(b).len() ==> words32(b)[i] == 0)
+{
+    use crate::shims::*;
+    if all_zero(b) {
+        assert forall |i: int| 0 <= i < words32(b).len() implies words32(b)[i] == 0 by { lemma_from_le32_zero(b.subrange(4 * i, 4 * i + 4)); }
+    }
+    if forall |i: int| 0 <= i < words32(b).len() ==> words32(b)[i] == 0 {
+        assert forall |k: int| 0 <= k < b.len() implies b[k] == 0 by {
+            let i = k / 4; assert(words32(b)[i] == 0); lemma_from_le32_zero(b.subrange(4 * i, 4 * i + 4));
+            assert(b[k] == b.subrange(4 * i, 4 * i + 4)[k - 4 * i]);
+        }
+    }
+}
+pub proof fn lemma_words64_zero(b: Seq<u8>) requires b.len() % 8 == 0
+    ensures crate::shims::all_zero(b) == (forall |i: int| 0 <= i < words64(b).len() ==> words64(b)[i] == 0)
+{
+    use crate::shims::*;
+    if all_zero(b) {
+        assert forall |i: int| 0 <= i < words64(b).len() implies words64(b)[i] == 0 by { lemma_from_le64_zero(b.subrange(8 * i, 8 * i + 8)); }
+    }
+    if forall |i: int| 0 <= i < words64(b).len() ==> words64(b)[i] == 0 {
+        assert forall |k: int| 0 <= k < b.len() implies b[k] == 0 by {
+            let i = k / 8; assert(words64(b)[i] == 0); lemma_from_le64_zero(b.subrange(8 * i, 8 * i + 8));
+            assert(b[k] == b.subrange(8 * i, 8 * i + 8)[k - 8 * i]);
+        }
+    }
 }
 // T5 (assumed; Kani harnesses `read_u64_into_le`, `read_u32_into_le` on the real rand_core)
 #[verifier::external_body]
